@@ -95,6 +95,29 @@ def handle : List String → String
     | some nb, some fs, some frame, some vbr, some br, some out, some tot, some s =>
       s!"v={msCurrMax nb fs frame (msMaxBytes vbr br 0 nb fs frame out) tot s}"
     | _, _, _, _, _, _, _, _ => "bad-op"
+  | ["msrate", fs, frame, nb, c, lfe, amb, br] =>
+    match parseInt fs, parseInt frame, parseInt nb, parseInt c, parseInt lfe, parseInt amb, parseInt br with
+    | some fs, some frame, some nb, some c, some lfe, some amb, some br =>
+      let l : MsLayout := { nbStreams := nb, nbCoupled := c, lfeStream := lfe, ambisonics := amb != 0 }
+      s!"sum={msRateSum l fs frame br} fits={if msFits l fs frame br then 1 else 0} r={intList (msRates l fs frame br)}"
+    | _, _, _, _, _, _, _ => "bad-op"
+  | ["msctl", nch, v] =>
+    match parseInt nch, parseInt v with
+    | some nch, some v => s!"v={(msCtlBitrate nch v).getD (-99999)}"
+    | _, _ => "bad-op"
+  | ["msuser", fs, frame, nb, c, lfe, amb, br, i] =>
+    match parseInt fs, parseInt frame, parseInt nb, parseInt c, parseInt lfe, parseInt amb, parseInt br, parseInt i with
+    | some fs, some frame, some nb, some c, some lfe, some amb, some br, some i =>
+      let l : MsLayout := { nbStreams := nb, nbCoupled := c, lfeStream := lfe, ambisonics := amb != 0 }
+      s!"v={(msStreamUserBitrate l fs frame br i).getD (-99999)}"
+    | _, _, _, _, _, _, _, _ => "bad-op"
+  | ["mscurr3", nb, c, lfe, amb, fs, frame, vbr, br, out, tot, s] =>
+    match parseInt nb, parseInt c, parseInt lfe, parseInt amb, parseInt fs, parseInt frame, parseInt vbr, parseInt br,
+          parseInt out, parseInt tot, parseInt s with
+    | some nb, some c, some lfe, some amb, some fs, some frame, some vbr, some br, some out, some tot, some s =>
+      let l : MsLayout := { nbStreams := nb, nbCoupled := c, lfeStream := lfe, ambisonics := amb != 0 }
+      s!"v={msCurrMax nb fs frame (msMaxBytesAlloc l vbr br fs frame out) tot s}"
+    | _, _, _, _, _, _, _, _, _, _, _ => "bad-op"
   | _ => "bad-op"
 
 end Driver.SuiteEncSkel
